@@ -27,7 +27,7 @@ ASSUMPTIONS = ['no entry exists at the original locations beforehand (clobbering
                'the reply grammar itself is a pure function of the reply; the simulator contributes sorting, scoping and the effect on disk']
 PROBES = ['valid-reply', 'invalid-reply', 'empty-reply', 'eof', 'range', 'sort-none', 'sort-path', 'sort-date',
           'scope-excludes-sibling-prefix', 'restored', 'scope-by-argument', 'tie-in-sort-key',
-          'nested-or-same-location-selection', 'nested-selection-all-free-in-reply-order']
+          'nested-or-same-location-selection', 'nested-selection-all-free-in-reply-order', 'junk-next-to-the-entries']
 TECHNIQUE = 'deterministic simulation of trash-restore with fuzzed replies; listing/scoping/selection compared with an independent reply parser and scope predicate'
 LEVEL_TEXT = 'seeded exploration of reply strings x location sets x sort modes; what is printed at an index must be what is restored'
 LEVEL_NOTE = 'trusted: model/reply.py, model/bag.py; sampled'
@@ -95,6 +95,12 @@ def gen(rng):
         pv = TG.pct(loc if top is None else loc[len(top) + 1:])
         date = rng.choice(dates) if rng.random() < 0.4 else TG.rand_date(rng)
         G.add_trashed(steps, tdir, 't%d' % i, pv, TG.iso(date), rng.choice(['file', 'dir', 'link']), tag=str(i))
+    if rng.random() < 0.2:
+        # junk next to the entries (an empty .trashinfo left by an interrupted put, an unreadable one ...): everything that is
+        # well-formed and in scope is still listed, numbered and restorable
+        for j in range(rng.randint(1, 2)):
+            TG.add_malformed(rng, steps, rng.choice(locs)[0], rng.choice(['empty', 'truncated', 'nopath', 'binary', 'only_header', 'dir_in_info',
+                                                                          'infodir_named_trashinfo', 'info_dangling_link', 'stray_dangling_link']), 'j%d' % j)
     nested = rng.random() < 0.15
     if nested:
         # a file trashed from inside a directory, then the directory itself (and possibly its parent): restoring the outer one
@@ -164,6 +170,8 @@ def check(sim, case, st):
     res = []
     sm = sort_mode(spec['argv'])
     st.probes['sort-' + sm] += 1
+    if any('mal_' in k for k in snap0):
+        st.probes['junk-next-to-the-entries'] += 1
 
     def bad(clause, msg):
         res.append(('C13/%s/sort=%s' % (clause, sm), msg + ' (argv %r, cwd %r, stdin %r, exit %s)\nstderr: %s'
